@@ -91,6 +91,7 @@ struct Iter
 static std::vector<Iter> g_iters;
 static std::vector<double> g_pre_us;
 static long long g_pre_dist = 0;
+static std::vector<int> g_pre_pairs; // distance(i, j) calls before the first shuffle (neighbour search, max-distance loop)
 static std::vector<double> g_gauss;
 static bool g_logging = false;
 static int g_umode = 0, g_gmode = 0;
@@ -172,7 +173,11 @@ struct log_distance
         if (g_logging)
         {
             if (g_iters.empty())
+            {
                 ++g_pre_dist;
+                g_pre_pairs.push_back(a);
+                g_pre_pairs.push_back(b);
+            }
             else
             {
                 g_iters.back().pairs.push_back(a);
@@ -291,6 +296,7 @@ static void run_spe(std::istream& in, const std::string& id)
     g_iters.clear();
     g_pre_us.clear();
     g_pre_dist = 0;
+    g_pre_pairs.clear();
     g_umode = umode;
     g_ugen.seed(useed);
 
@@ -368,6 +374,13 @@ static void run_spe(std::istream& in, const std::string& id)
                 for (int j = 0; j < N; ++j)
                     R(i, j) = (X.col(i) - X.col(j)).norm();
             print_rows("R", R);
+            // the last N(N-1)/2 calls before the first shuffle: the max-distance loop of spe_embedding
+            const size_t want = (size_t)N * (size_t)(N > 0 ? N - 1 : 0);
+            const size_t from = g_pre_pairs.size() > want ? g_pre_pairs.size() - want : 0;
+            std::printf("MAXL");
+            for (size_t i = from; i < g_pre_pairs.size(); ++i)
+                std::printf(" %d", g_pre_pairs[i]);
+            std::fputc('\n', stdout);
         }
         if (log >= 1)
         {
